@@ -29,6 +29,16 @@ impl Personality {
     pub fn canonical_numbers(self) -> bool {
         self.0 & 8 != 0
     }
+    /// bit4: `get` with a bare (unquoted) all-digit key on an array answers with that element — the
+    /// JavaScript convention. The engine hands `get` a bare key only for shorthand names, which never
+    /// start with a digit, so this is invisible as long as the engine keeps to that.
+    pub fn bare_digits_index_arrays(self) -> bool {
+        self.0 & 16 != 0
+    }
+    /// bit5: `From<Vec<Self>>` (required by the trait, not used by the engine) builds a sentinel.
+    pub fn from_vec_is_sentinel(self) -> bool {
+        self.0 & 32 != 0
+    }
 }
 
 thread_local! {
@@ -258,6 +268,9 @@ impl<const P: usize> From<f64> for Sim<P> {
 impl<const P: usize> From<Vec<Sim<P>>> for Sim<P> {
     fn from(v: Vec<Sim<P>>) -> Self {
         seam(14);
+        if personality().from_vec_is_sentinel() {
+            return Sim::Str("<built from a Vec>".to_string());
+        }
         Sim::Arr(v)
     }
 }
@@ -293,8 +306,10 @@ impl<const P: usize> Queryable for Sim<P> {
         } else {
             key
         };
+        let quoted = key.len() != b.len();
         match self {
             Sim::Obj(o) => o.iter().find(|(k, _)| k == key).map(|(_, v)| v),
+            Sim::Arr(a) if !quoted && personality().bare_digits_index_arrays() && !key.is_empty() && key.bytes().all(|c| c.is_ascii_digit()) => key.parse::<usize>().ok().and_then(|i| a.get(i)),
             _ => None,
         }
     }
